@@ -205,7 +205,9 @@ func (s *Set) loadFromFile(templatePath string, cacheAfterParsing bool, parents 
 	if err != nil {
 		return nil, err
 	}
-	return s.parse(templatePath, string(content), cacheAfterParsing, parents...)
+	// from here on the template is part of the chain its own extends/import clauses are checked against
+	// (not so for Set.Parse: what is parsed there is not what the loader has under that name)
+	return s.parse(templatePath, string(content), cacheAfterParsing, append(parents[:len(parents):len(parents)], templatePath)...)
 }
 
 // Parse parses `contents` as if it were located at `templatePath`, but won't put the result into the cache.
